@@ -2,6 +2,7 @@
 import copy, hashlib, json, os
 from concurrent.futures import ThreadPoolExecutor
 import vlib
+from . import ext2
 
 
 def split_trace(path, max_events, outdir, stem):
@@ -184,6 +185,10 @@ def run(ctx):
     lines = open(trace).read().splitlines()
     ctx.add_samples([json.loads(l) for l in lines if '"op":"closure"' in l][:1])
     ctx.add_samples([json.loads(l) for l in lines if '"op":"seifert"' in l][3:4])
+    # extensions: Path (components, circles) as a state machine
+    ext2.path_part(ctx)
+    # ... and Tng / TngComp (tangles as glued arcs and circles; the bookkeeping of the tangle complex builder)
+    ext2.tng_part(ctx)
 
 
 def replay(ctx, path):
